@@ -389,6 +389,8 @@ def run(ck):
     sub = 'YmdHMSjaZzsF'
     fm += ['%' + a + '-%' + b for a in sub for b in sub]
     fm += ['lit', 'a %Y b %% c', '%Y' * 10, '%c' * 5, 'x' * 70 + '%Y', 'x' * 79, 'x' * 80, '%', '%Q', '%E', '%Ey %Oy', '%10Y', '%-d', '%_H', '%^a']
+    # requested formats whose expansion reaches 80 bytes: a verbose date with text around it, literal padding up to 79 / 80 / 81 / 300 bytes
+    fm += ['%A, %d %B %Y, %H:%M:%S (%Z, UTC%z) - week %V of %G, day %j of the year', 'p' * 75 + '%Y', 'p' * 76 + '%Y', 'p' * 77 + '%Y', 'p' * 296 + '%Y']
     ds = ['datetime:' + f for f in fm]
     fstate = dict(ids=(0, 0, 0, 0, 0, 0), setsid=0, cwd='root', stdin='null', env='three', sudo=0, logname=0, host='-', chain='', ptyowner=0, orphan=0, tz='VRF-3:30', newpgrp=0)
     out, r, reports = one(fstate, ds)
@@ -413,6 +415,9 @@ def run(ck):
             fits = all(0 < len(x.encode()) < 80 for x in want) and want
             if fits and got not in want:
                 ck.violation('C12:datetime:fmt=%s' % fmt[:40], {'format': fmt, 'got': got, 'want_one_of': sorted(want)[:3]})
+            elif want and all(len(x.encode()) >= 80 for x in want) and got not in want:
+                # the time in the requested format is 80 bytes or longer (upstream's own expected-failure test datasource_datetime-fmt-too-long.sh)
+                ck.violation('C12:datetime:expansion_of_80_bytes_or_more:got=%s:fmt=%s' % (re.sub(r'[^A-Za-z0-9]+', '_', got)[:30].strip('_'), fmt[:40]), {'format': fmt, 'got': got, 'want_one_of': sorted(want)[:2]})
     ck.assumptions += ['kernel interfaces (/proc, raw syscalls) are the second route and are trusted', 'domain / ipaddr / systemd_unit_name are observed in the one state the sandbox offers (not varied)']
     ck.coverage(states=len(outcomes), transitions=evals, traces_validated_against_impl=evals, evaluations=evals, distinct_nontrivial=len(outcomes), process_states=len(S), strftime_formats=len(fm),
                 rule='constructed process states (factored products + 2^8 product) x all data sources; distinct = distinct (state, mismatch set) and (format, value)', samples=samples or [{'note': 'none'}])
